@@ -62,7 +62,9 @@ def display_into(vm, ty, ref, fref, debug=False):
         target = v if isinstance(v, Ref) else Ref(Cell(v))
         return vm.call(f'<{t} as {tr}>::fmt', [target, fref], None, None, subst={})
     x = D(vm, v)
-    if isinstance(x, RcVal): x = x.box.cell.v
+    if isinstance(x, RcVal):
+        inner = type_head(t)[1]
+        return display_into(vm, inner[0] if inner else '', Ref(x.box.cell), fref, debug)
     if isinstance(x, Adt) and x.ty == 'Box':
         inner = type_head(t)[1]
         return display_into(vm, inner[0] if inner else '', vm.box_ptr(x), fref, debug)
